@@ -24,37 +24,50 @@ CLAIMS = {
          "fuel parse_tokens allots (ParseTotal.v); two neighbouring binary operators group to the left exactly when the second does not bind "
          "tighter; the statement {{ c }} parses to one expression statement, whose value is the specification's (ExprPipeline.v). Go's "
          "binding-power table is a strictly monotone image of the property's levels and the operand precedences of every parseExpression "
-         "call site are pinned. Not theorems: object literals in the syntactic half, and that blanks/newlines do not change the token "
-         "sequence (lexer model = lexer on every generated layout). The printer -> lexer -> parser round trip is also run on every ordered "
-         "pair/triple of operator forms and random trees under layouts (model = implementation, implementation = specification value).",
+         "call site are pinned. From the source BYTES (Proofs/LexRound.v, the lexer read backwards): a source that spells a checked list "
+         "of items - any white space between the tokens of code - is lexed to exactly the items' tokens, so the three theorems compose: "
+         "bytes -> tokens -> AST -> specification value (C01_from_source_bytes_to_value). Not a theorem: object literals in the syntactic "
+         "half. The printer -> lexer -> parser round trip is also run on every ordered pair/triple of operator forms and random trees "
+         "under layouts (model = implementation, implementation = specification value).",
          "8.C01", "Pratt-parser correctness theorem (tokens of a tree parse to the tree) + refinement theorem evaluator-model = specification semantics + translator-pinned precedence tables + extracted printer/semantics as oracle"),
  "C02": ("proof", "Refinement theorem (induction on the specification's fuel over nodes, blocks, @each and @for passes together): on the AST of "
          "every specification template the model's statement evaluator gives the same output, signal and scope chain as the clean big-step "
          "semantics of Spec/Template.v, and an error where it says error - so @if renders exactly the first branch whose condition is truthy, "
          "conditions evaluated left to right in the enclosing scope and none after the chosen one; one truthiness for all conditionals. "
-         "Expressions through the C01 theorem. Tied to evaluator.go by the correspondence run; the specification is also the oracle on "
-         "enumerated @if shapes.", "8.C02",
+         "Expressions through the C01 theorem. Syntactic half (Proofs/StmtParse.v): the tokens of every well-formed statement tree - text, "
+         "{{ e }}, assignments, @if/@elseif/@else, @each with @else, @break(If)/@continue(If), any nesting and body length - parse to exactly "
+         "the tree, with the fuel parse_tokens allots; and from the source BYTES (Proofs/LexRound.v + TemplatePipeline.v): a source that spells "
+         "a checked list of items whose tokens are those of a tree that spells the specification template ns (first line) is lexed to those "
+         "tokens, parsed to the program of ns and rendered by the model of EvaluateString as the specification says "
+         "(C02_from_source_bytes_to_output). Tied to evaluator.go / parser.go / lexer.go by the correspondence run; the specification is "
+         "also the oracle on enumerated @if shapes.", "8.C02",
          "refinement proof model-evaluator vs big-step specification + correspondence + extracted specification as oracle"),
  "C03": ("proof", "Same refinement theorem for loops: the model's each_loop / for_loop (marker objects found by a recursive scan through "
          "nested Blocks, output concatenated per pass, @for post value re-bound to the init variable) refine the specification's passes with "
          "signals: same output and scope chain after any number of passes, break ends the innermost loop only, continue the pass only, "
          "empty @each / false-at-entry @for renders @else; loop metadata per pass; non-array is an error. Hypothesis: a ++/-- post clause "
-         "steps the init variable. Tied by correspondence; specification also the oracle on enumerated loop shapes.", "8.C03",
+         "steps the init variable. The same tokens -> tree and bytes -> tokens -> tree -> output theorems as C02 for @each bodies with "
+         "@else, @break, @continue, @breakIf, @continueIf (C03_from_source_bytes_to_output; @for is not in the syntactic half). Tied by "
+         "correspondence; specification also the oracle on enumerated loop shapes.", "8.C03",
          "refinement proof (marker scan = signals) by mutual induction + correspondence + specification oracle"),
  "C04": ("proof", "Frame theorem by induction over the evaluator (a statement changes at most the innermost frame; @if restores the chain), "
          "type stability and the reserved name over any assignment sequence, and - through the refinement theorem - the model's scope chain "
          "after any statement is the specification's (assignment binds in the innermost block, one child scope per @if/loop discarded at "
-         "@end, env_set = the specification's assign). Tied by correspondence.", "8.C04",
+         "@end, env_set = the specification's assign); from the source bytes of templates with assignments at any nesting position to "
+         "the specification's scope chain (C04_from_source_bytes_to_output). Tied by correspondence.", "8.C04",
          "invariant by induction over evaluator fuel and assignment sequences + refinement to the scoped big-step specification"),
- "C05": ("proof", "PARTIAL (the three sentences are theorems for whole templates of text and escapes and for comments at the lexer; text "
-         "spliced around code blocks and directives is decided on generated instances). Theorems: for every byte string with no NUL, no "
+ "C05": ("proof", "PARTIAL only in that escapes spliced around code are decided on generated instances; text and comments between code are "
+         "theorems now. Theorems: for every byte string with no NUL, no "
          "'{{' and no '@' that starts a directive keyword (table regenerated from token.go) the lexer model yields one text token whose "
          "literal is the input then EOF (loop invariant of readHTML), the parser one HTML statement, and the model's render is the input "
          "itself for any data; for every byte string whose only active syntax is escapes (a backslash directly before '{{' or before a "
          "directive keyword) the single text token holds the text with exactly those backslashes removed and the render is that text - in "
          "both cases what the reference scanner of Spec/Text.v says; for every lexer state in text mode standing on a terminated comment, "
          "NextToken is NextToken of the state just after the terminator the specification's find_term finds: no token, whatever the "
-         "comment holds. Exhaustive short strings over the escape/comment alphabet and spliced segments run against the reference scanner.",
+         "comment holds; and (Proofs/LexRound.v) in every source that spells a checked list of items, each text run between {{ }} blocks and "
+         "directives - any bytes but NUL, line feeds and backslashes included (not last, not before active syntax) - is one HTML token whose "
+         "literal is the run, at its exact (line, column), and comments before any item of text mode and at the end yield no token. "
+         "Exhaustive short strings over the escape/comment alphabet and spliced segments run against the reference scanner.",
          "8.C05", "loop-invariant proofs over the lexer model (text, escapes, comment skip) + parser/evaluator computation + extracted reference scanner as oracle"),
  "C06": ("proof", "Step theorems on the loader and evaluator model: a page with @use loads to the layout's program alone; inserts are attached "
          "to their reserves wherever these stand; a filled reserve shows exactly what the insert's body or expression renders in place, an "
@@ -77,10 +90,11 @@ CLAIMS = {
          "token list that holds an ILLEGAL token anywhere - illegal character, unterminated string, unterminated comment - is always "
          "rejected, given that an ILLEGAL token is followed only by ILLEGAL/EOF and EOF is last (no parse function steps over a token "
          "before it has seen its type or seen that the next token cannot follow an ILLEGAL one). The parser's loop guards are "
-         "regenerated from parser.go. Not theorems: that shape of the lexer's output in general (proved for the stuck-lexer case, "
-         "evaluated by the extracted definitions on every generated input), rejection of unterminated blocks / argument lists (oracle on "
-         "every prefix and mutation of generated templates and exhaustive lexeme sequences), and that the models are the code "
-         "(correspondence, with a watchdog outside the process).", "8.C08",
+         "regenerated from parser.go. That shape of the lexer's output is a theorem too (Proofs/LexShape.v: for every byte string the "
+         "token list ends in EOF or ILLEGAL, holds EOF only last, and an ILLEGAL token is followed by nothing but its own repetition), so "
+         "every SOURCE whose token list holds an ILLEGAL token is rejected (C08_source_with_illegal_token_is_rejected). Not theorems: "
+         "rejection of unterminated blocks / argument lists (oracle on every prefix and mutation of generated templates and exhaustive "
+         "lexeme sequences), and that the models are the code (correspondence, with a watchdog outside the process).", "8.C08",
          "termination + program-or-error theorems for the lexer and parser models (measure: remaining tokens, rank on the call graph) + translator-pinned loop guards + exhaustive lexeme-sequence oracle"),
  "C09": ("proof", "Theorem by mutual induction over the evaluator's fuel: on a well-formed program (no nil node where one is dereferenced, "
          "dot keys are identifiers, component arguments are object literals) no expression, statement, block, loop or render of the model "
@@ -143,7 +157,12 @@ CLAIMS = {
          "NextToken returns - text runs, strings, identifiers, numbers, directives, operators, braces, with comments skipped on the way - "
          "starts and ends at the (line, column) of byte offsets of the input, never before the lexer's position, and ends before its new "
          "position when it consumed input; the token list of an input is exact and ordered (induction over the lexer's loops and over "
-         "NextToken's fuel). Tiling (blank gaps), own text and Position.Contains at every cursor are checked by the extracted oracle on "
+         "NextToken's fuel). The lexer read backwards (Proofs/LexRound.v): for every list of items (token type, source spelling, white "
+         "space or comments before it) that passes the computable check source_ok - text runs, {{ }}, every directive, identifiers, "
+         "keywords, numbers, strings with escaped quotes, every operator and bracket, nested braces and parentheses, any number of lines - "
+         "the lexer model returns exactly the items' tokens: type, literal, and the (line, column) of the first and last byte, then EOF; "
+         "the extracted check in_domain is evaluated on every generated input and the evidence reports how many lie inside the theorem's "
+         "domain. Tiling (blank gaps), own text and Position.Contains at every cursor are checked by the extracted oracle on "
          "the implementation's tokens; the model is tied to lexer.go by translator tables and a full-token-list correspondence run.",
          "8.C19", "invariant by induction over readChar and every reading loop + refinement-checked model + extracted oracle"),
  "C20": ("proof", "Registry as a state machine: first registration per (type, name) wins and is never replaced, per-type independence, "
